@@ -1460,10 +1460,32 @@ func (c *Ctx) regexPattern(pkgrel, name string) (string, token.Pos, bool) {
 
 // captureSets: for a regex of the shape (class)(class?)(lit?)..., return per capture the set of strings it can match ("" included when optional).
 func captureSets(pattern string) ([][]string, error) {
+	sets, _, err := captureSetsAnchored(pattern)
+	return sets, err
+}
+
+// captureSetsAnchored also reports whether the pattern is anchored at both ends (^...$).
+func captureSetsAnchored(pattern string) ([][]string, bool, error) {
 	re, err := syntax.Parse(pattern, syntax.Perl)
 	if err != nil {
-		return nil, err
+		return nil, false, err
 	}
+	anchored := false
+	if re.Op == syntax.OpConcat && len(re.Sub) >= 2 && re.Sub[0].Op == syntax.OpBeginText && re.Sub[len(re.Sub)-1].Op == syntax.OpEndText {
+		anchored = true
+		inner := *re
+		inner.Sub = re.Sub[1 : len(re.Sub)-1]
+		if len(inner.Sub) == 1 {
+			re = inner.Sub[0]
+		} else {
+			re = &inner
+		}
+	}
+	sets, err := captureSets1(re)
+	return sets, anchored, err
+}
+
+func captureSets1(re *syntax.Regexp) ([][]string, error) {
 	var caps []*syntax.Regexp
 	if re.Op == syntax.OpCapture {
 		caps = []*syntax.Regexp{re}
@@ -1562,11 +1584,12 @@ func ruleTabRegex(c *Ctx) {
 			c.undec(key, c.pos(pos), "", "pattern is not a constant passed to regexp.MustCompile")
 			continue
 		}
-		sets, err := captureSets(pat)
+		sets, anchored, err := captureSetsAnchored(pat)
 		if err != nil {
 			c.undec(key, c.pos(pos), "", fmt.Sprintf("pattern %q: %v", pat, err))
 			continue
 		}
+		c.check(anchored, key+"|anchored", c.pos(pos), "", "pattern is anchored at both ends: nothing is accepted around the spelling", fmt.Sprintf("pattern %q is not anchored (^...$): the parser takes the first match anywhere in the text and ignores the rest, so `Cmaj` is read as the key C minor and `xCm` as Cm — nonsense is silently turned into a different key/note instead of being refused", pat))
 		good := len(sets) == len(rx.want)
 		for i := 0; good && i < len(sets); i++ {
 			w := append([]string{}, rx.want[i]...)
